@@ -234,9 +234,9 @@ impl C07 {
 impl Monitor for C07 {
     fn engines(&self, tier: Tier) -> Vec<(&'static str, u64)> {
         vec![
-            ("hostile", tier.pick(400_000, 5_000_000)),
-            ("sweep", tier.pick(5_000, 50_000)),
-            ("iplevel", tier.pick(150_000, 1_500_000)),
+            ("hostile", tier.pick(4000000, 500000000)),
+            ("sweep", tier.pick(50000, 5000000)),
+            ("iplevel", tier.pick(1500000, 150000000)),
         ]
     }
 
